@@ -298,7 +298,7 @@ func (in *Interp) index(x *ast.IndexExpr) Value {
 	default:
 		in.fail(x, "index on %T", base)
 	}
-	if k, ok := in.D.ConstVal(idx); ok {
+	if k, ok := in.constLive(idx); ok {
 		if k < 0 || int(k) >= n {
 			in.crash(x, "index %d out of range [0,%d)", k, n)
 		}
@@ -326,11 +326,39 @@ func (in *Interp) constInt(e ast.Expr, what string) int {
 	if !ok {
 		in.fail(e, "%s is not an integer", what)
 	}
-	k, isConst := in.D.ConstVal(v)
+	k, isConst := in.constLive(v)
 	if !isConst {
 		in.fail(e, "%s is symbolic", what)
 	}
 	return int(k)
+}
+
+// constLive: the value of x if it is the same constant on every path of the current path condition (a variable
+// that differs only on paths which already left through break/continue is a constant for the code that still runs).
+func (in *Interp) constLive(x *Bits) (int64, bool) {
+	if k, ok := in.D.ConstVal(x); ok {
+		return k, true
+	}
+	if in.live == True || in.live == False {
+		return 0, false
+	}
+	var v int64
+	bs := x.Bits()
+	for i, n := range bs {
+		switch {
+		case in.D.M.And(in.live, n) == False:
+		case in.D.M.And(in.live, in.D.M.Not(n)) == False:
+			if i < 64 {
+				v |= 1 << uint(i)
+			}
+		default:
+			return 0, false
+		}
+	}
+	if x.Signed && x.W < 64 && in.D.M.And(in.live, in.D.M.Not(bs[x.W-1])) == False {
+		v -= 1 << uint(x.W)
+	}
+	return v, true
 }
 
 func (in *Interp) slice(x *ast.SliceExpr) Value {
@@ -586,6 +614,9 @@ func (in *Interp) call(x *ast.CallExpr) Value {
 		}
 		// function-typed field or variable
 		in.fail(x, "call through a function value")
+	}
+	if lit, ok := fun.(*ast.FuncLit); ok {
+		return single(in.callFuncLit(lit, in.args(x, info.TypeOf(lit).(*types.Signature))))
 	}
 	in.fail(x, "call form %T", fun)
 	return nil
